@@ -1,6 +1,7 @@
 package main
 
 import (
+	"sort"
 	"fmt"
 	"go/ast"
 	"go/parser"
@@ -182,6 +183,13 @@ func (x *Exec) runBody(recv *ast.FieldList, ftype *ast.FuncType, body *ast.Block
 		st.names["callCount"] = intLit(0)
 		st.names["callSeq"] = Term{"((as const (Array Int Int)) 0)", arraySort(SInt, SInt)}
 	}
+	if c.Opts["trace-calls"] != "" {
+		st.names["tracedCount"] = intLit(0)
+		st.names["tracedSeq"] = Term{"((as const (Array Int Int)) 0)", arraySort(SInt, SInt)}
+		if t := tracedArgType(body, info, c.Opts["trace-calls"]); t != nil {
+			st.names["$type:tracedArg"] = t
+		}
+	}
 	if c.Opts["ghost-select"] == "true" {
 		st.names["selCalled"] = boolLit(false)
 		st.names["selCases"] = intLit(0)
@@ -210,7 +218,7 @@ func (x *Exec) runBody(recv *ast.FieldList, ftype *ast.FuncType, body *ast.Block
 	for _, r := range c.Requires {
 		if r.Prop == "assume" {
 			x.noteAssume("assumed precondition of " + c.Key + " (not checked at call sites): " + r.Src)
-		} else if r.Prop != "" && r.Prop != x.prop {
+		} else if r.Prop != "" && !propIn(r.Prop, x.prop) {
 			continue
 		}
 		st.assume(x.evalBool(r.Expr, st))
@@ -281,6 +289,10 @@ func (x *Exec) runBody(recv *ast.FieldList, ftype *ast.FuncType, body *ast.Block
 			x.checkExits(c, o, "panic")
 			continue
 		case outBreak, outContinue:
+			if o.out == outBreak && o.label == "" && strings.HasPrefix(c.LitSel, "case:") {
+				o.out = outNormal // break out of the switch whose clause is the unit
+				break
+			}
 			engineFail("break/continue escaped the function body")
 		}
 		rets := o.rets
@@ -325,6 +337,9 @@ func (x *Exec) runBody(recv *ast.FieldList, ftype *ast.FuncType, body *ast.Block
 			}
 			x.contract = true
 		}
+		if c.HasMod && !c.Trusted {
+			x.checkFrame(c, o)
+		}
 		x.checkExits(c, o, "return")
 		if len(c.Completes) > 0 && o.names["$execInstalled"] != true {
 			for i, cl := range c.Completes {
@@ -342,6 +357,11 @@ func (x *Exec) runBody(recv *ast.FieldList, ftype *ast.FuncType, body *ast.Block
 			lab := cn.Label
 			if lab == "" {
 				lab = fmt.Sprintf("canary%d", i+1)
+			}
+			if strings.HasPrefix(cn.Prop, "local:") {
+				if lo := x.conScope[strings.TrimPrefix(cn.Prop, "local:")]; lo == nil || o.env[lo] == nil {
+					continue
+				}
 			}
 			phi := x.evalBool(cn.Expr, o)
 			x.contract = false
@@ -506,6 +526,19 @@ func (x *Exec) verifyInlineLit(lit *ast.FuncLit, st *State, params, results []st
 					continue
 				}
 			}
+			if strings.HasPrefix(en.Prop, "path:") {
+				// the clause applies to the literals created on generator paths with this label
+				want := strings.TrimPrefix(en.Prop, "path:")
+				hit := false
+				for _, lab := range st.trace {
+					if lab == want {
+						hit = true
+					}
+				}
+				if !hit {
+					continue
+				}
+			}
 			if strings.HasPrefix(en.Prop, "local:") {
 				// the clause only applies to literals that have this generator local in scope
 				name := strings.TrimPrefix(en.Prop, "local:")
@@ -532,7 +565,7 @@ func (x *Exec) verifyInlineLit(lit *ast.FuncLit, st *State, params, results []st
 			if okind == "canary" {
 				ob.MustFail = true
 			}
-			if en.Prop != "" && !strings.HasPrefix(en.Prop, "local:") && !strings.HasPrefix(en.Prop, "mode:") {
+			if en.Prop != "" && !strings.HasPrefix(en.Prop, "local:") && !strings.HasPrefix(en.Prop, "mode:") && !strings.HasPrefix(en.Prop, "path:") {
 				ob.Prop = en.Prop
 			}
 		}
@@ -540,4 +573,42 @@ func (x *Exec) verifyInlineLit(lit *ast.FuncLit, st *State, params, results []st
 	}
 	x.nlitVerified++
 	st.names["$execInstalled"] = true
+}
+
+// checkFrame: the `modifies` clause of a verified contract. Every modelled heap component the body
+// changed is compared with its value at entry: pre-existing locations (references >= 0; the unit's own
+// allocations are negative) other than the listed objects must hold what they held at entry.
+func (x *Exec) checkFrame(c *Contract, o *State) {
+	save := x.saveContractCtx()
+	defer x.restoreContractCtx(save)
+	targets := x.modTargets(c, o)
+	keys := make([]string, 0, len(o.heap))
+	for k := range o.heap {
+		keys = append(keys, k)
+	}
+	sort.Strings(keys)
+	for _, k := range keys {
+		fin := o.heap[k]
+		init := sanitize(k) + "_0"
+		if !x.declared[init] {
+			init = k + "_0"
+		}
+		if fin.S == init {
+			continue
+		}
+		x.declConst(k+"_0", fin.Sort)
+		var phi string
+		if strings.HasPrefix(string(fin.Sort), "(Array Int ") {
+			guards := []string{"(>= o_fr 0)"}
+			for _, t := range targets {
+				if t.key == k {
+					guards = append(guards, "(not (= o_fr "+t.ref.S+"))")
+				}
+			}
+			phi = "(forall ((o_fr Int)) (=> " + and(guards...) + " (= (select " + fin.S + " o_fr) (select " + x.declConst(k+"_0", fin.Sort).S + " o_fr))))"
+		} else {
+			phi = "(= " + fin.S + " " + x.declConst(k+"_0", fin.Sort).S + ")"
+		}
+		x.oblige(o, "frame", "modifies:"+k, phi, "modifies "+strings.Join(c.Modifies, ", "))
+	}
 }
